@@ -46,6 +46,44 @@ TABLE = {
                'iter_window_array(_items) whose window crosses two Bus Frames of different dtype'),
     'C20-a1': ('C20', 'the reindex-to-index_inner guard of Frame.pivot (no columns_fields branch) is removed',
                'pivot with two or more index_fields of different dtypes, no columns_fields, first-seen order differing from sorted order'),
+    'C01-a2': ('C01', 'Series.__init__ builds the values of a 0-d array input with np.broadcast_to (a stride-0 view of the caller\'s array) instead of np.repeat',
+               'a Series built directly from a writable 0-d ndarray that the caller keeps and later writes to in place'),
+    'C02-a2': ('C02', 'the sequential-predecessor test is removed from the outer-depth branch of IndexHierarchy._from_type_blocks',
+               'a hierarchy of depth 3 or more derived from a Frame / iloc selection in which an outer label recurs non-adjacently'),
+    'C03-a2': ('C03', 'Frame.rename hands self._blocks over without copying, with own_data=True',
+               'a FrameGO that is renamed, after which one of the two frames is grown in place and the other inspected'),
+    'C04-a2': ('C04', 'Index._loc_to_iloc refreshes the label cache only for multi-element keys',
+               'a grown datetime IndexGO (appends not yet recached) selected with a scalar key coarser than its labels'),
+    'C05-a2': ('C05', 'IndexLevelGO.append resets the cached _length on the root and the grown node only, not on every node of the descent',
+               'an IndexHierarchyGO of depth 3 or more whose table was rebuilt once, then an append of a new innermost label under an existing (outer, middle) pair'),
+    'C06-a2': ('C06', 'the equal-operands shortcut of _ufunc_set_1d additionally requires equal dtypes',
+               'two indices with identical labels in identical unsorted order but different label dtypes (e.g. <U1 vs <U4, int64 vs int32)'),
+    'C07-a2': ('C07', 'SeriesAssign.__call__ reads value.dtype before the value Series is reindexed with the fill value',
+               'assign with a Series value that misses a selected label and a fill value that does not fit the value\'s dtype'),
+    'C08-a2': ('C08', 'FrameAssignILoc.__call__ reindexes a Series value with self.key instead of the ascending normalised key',
+               'assign.loc on a single row and several columns given in non-ascending order, with a Series value'),
+    'C09-a2': ('C09', 'the row-count check is removed from the ndarray branch of FrameGO.__setitem__',
+               'a mis-sized 1-D ndarray assigned as a new column, the error caught, and the same FrameGO used again'),
+    'C10-a2': ('C10', 'FrameHE.__hash__ hashes index / columns values after .tolist()',
+               'two equal FrameHE whose date or timedelta labels have different units, used as set members or dict keys'),
+    'C11-a2': ('C11', 'Frame.from_overlay skips the per-column reindex for containers whose index has the same length as the aligned index',
+               'a second or later frame with the same number of row labels as the aligned index but in a different order'),
+    'C12-a2': ('C12', 'Frame.sort_values (axis=1, no key function) consolidates the key columns into one array before lexsort',
+               'two or more key columns of different dtypes with values that the common dtype changes (integers above 2**53 next to floats)'),
+    'C13-a2': ('C13', '(see notes.md)', '(see notes.md)'),
+    'C14-a2': ('C14', '(see notes.md)', '(see notes.md)'),
+    'C15-a2': ('C15', '_argminmax_2d returns the plain arg-extreme for every dtype kind that is not float / complex / object, forgetting NaT',
+               'iloc_min / iloc_max / loc_min / loc_max with skipna=False on a Frame of datetime64 or timedelta64 values containing NaT'),
+    'C16-a2': ('C16', 'Frame._to_str_records pads the header rows with one blank cell too few when writing the columns name above a hierarchical index',
+               'export with include_index_name=False, include_columns_name=True of a Frame whose index is an IndexHierarchy'),
+    'C17-a2': ('C17', 'Store._mtime_coherent raises only when the file\'s mtime is newer than the one recorded',
+               'the file behind an open Bus replaced by one with an older mtime, then an unloaded label read'),
+    'C18-a2': ('C18', 'Batch._apply_pool_except catches Exception instead of the exception class passed by the caller',
+               'apply_except / apply_items_except with max_workers set and a task raising another exception type'),
+    'C19-a2': ('C19', 'Batch._ufunc_axis_skipna forwards ufunc=ufunc_skipna',
+               'a Batch reduction called with skipna=False on Frames that contain NaN'),
+    'C20-a2': ('C20', 'Frame.relabel_shift_out reads the labels of the moved levels in ascending level order instead of the caller\'s depth_level order',
+               'relabel_shift_out on an IndexHierarchy axis with a depth_level list that is not ascending'),
 }
 
 
